@@ -170,6 +170,10 @@ func formatGroupByKey(point *measurev1.DataPoint, groupByTagsRefs [][]*logical.T
 			tag := point.GetTagFamilies()[tagRef.Spec.TagFamilyIdx].GetTags()[tagRef.Spec.TagIdx]
 			switch v := tag.GetValue().GetValue().(type) {
 			case *modelv1.TagValue_Str:
+				// length-prefixed: ("a","bc") and ("ab","c") are different groups
+				if _, innerErr := hash.Write(convert.Uint32ToBytes(uint32(len(v.Str.GetValue())))); innerErr != nil {
+					return 0, innerErr
+				}
 				_, innerErr := hash.Write([]byte(v.Str.GetValue()))
 				if innerErr != nil {
 					return 0, innerErr
